@@ -46,10 +46,10 @@ REQUIRED_MONITORS = ["growth-rule", "short-input-cap", "harvest"]
 HERE = os.path.dirname(os.path.dirname(os.path.abspath(__file__)))
 
 GENERIC_ATOMS = ["a", "1", "-", ".", ":", "/", "a-", "1.", "a1", ".1", "-a", "a:", "ab", " ", "@", "A", "_",
-                 "a/", "/a", "a.", "1-", "-1", "a-a", "1.1", ":a", "a-1.", "C", "Ca", "aA", ",", "1,", "a,"]
+                 "a/", "/a", "a.", "1-", "-1", "a-a", "1.1", ":a", "a-1.", "C", "Ca", "aA", ",", "1,", "a,", "9", "0"]
 GENERIC_BLOCKS = [["a", "-", "1"], ["/", "-", "."], ["a", ":", "1"], ["1", ".", "1"], ["a", "-", "a"], ["a/", "a-", "a."],
-                  ["-", ":", "-"], ["A", "a", "-"]]
-GENERIC_PREFIX = ["", "a", "1", "RC-", "a-0:1-", "n:s:", "F-22-20150522"]
+                  ["-", ":", "-"], ["A", "a", "-"], ["1", "-", "1"], ["1", ",", "1"]]
+GENERIC_PREFIX = ["", "a", "1", "RC-", "a-0:1-", "n:s:", "F-22-20150522", "1-", "1,"]
 GENERIC_SUFFIX = ["", "!", "\n", ".x86_64",
                   # valid tails: the pump sits in front of an input the target ACCEPTS (cost blow-ups of accepted inputs)
                   "n:s", "a:1:2:c", "a-0:1-1.noarch", "a-1", "f-23-updates", "RC-1.0", "20150522.n.0", "1.0", "a"]
@@ -322,6 +322,18 @@ def run_shard(ctx):
         ctx.violation("stall", "no short input (a few dozen characters) can stall a caller", {"target": st["target"], "input": st["input"]},
                       observed="interrupted after %.0f CPU seconds (native)" % st["cpu_s"], expected="microseconds",
                       key=classify({"target": st["target"]}))
+    taint = hv.get("taint") or {}
+    if taint.get("error") or not taint.get("tokens"):
+        ctx.starved("the scan for patterns built from document data did not run: %s" % (taint.get("error") or "no tokens"))
+    ctx.note("data_taint_scan", {k: taint.get(k) for k in ("docs", "tokens", "loads", "bomb_loads", "truncated")})
+    ctx.note("patterns_built_from_document_data", taint.get("tainted", [])[:10])
+    ctx.monitor("data-built-pattern-stall", n=max(1, int(taint.get("loads", 0))), fired=bool(taint.get("stalls")))
+    for st in taint.get("stalls", []):
+        ctx.violation("data-built-pattern-stall", "no short input can stall a caller: a pattern assembled from document text must not let the "
+                      "document choose an exponentially ambiguous expression",
+                      {"format": st["format"], "document": st["document"], "token": st["token"], "bomb": st["bomb"], "pumped": st["pumped"]},
+                      observed="load interrupted after %.0f CPU seconds; patterns built from the token: %s" % (st["cpu_s"], st["patterns"]),
+                      expected="milliseconds", key=None)
     ctx.monitor("harvest", n=len(patterns))
     ctx.note("harvest_events", hv["events"])
     ctx.note("patterns_harvested", [[p["pattern"], p["flags"], p["where"][:3]] for p in patterns])
@@ -490,6 +502,19 @@ def classify(fam):
 
 def replay(ctx, case):
     """Re-measure one family (natively unless valgrind is available)."""
+    if "document" in case:
+        code = ("import sys,time,signal\nsys.path.insert(0,%r)\nsys.path.insert(1,%r)\nfrom rv import formats\n"
+                "pms=formats.modules()\nt=time.process_time()\n"
+                "signal.setitimer(signal.ITIMER_VIRTUAL, 4.0)\n"
+                "try:\n formats.new_object(pms,%r).loads(%r)\nexcept Exception: pass\n" % (ctx.repo, HERE, case["format"], case["document"]))
+        r = subprocess.run([sys.executable, "-c", code], stdout=subprocess.PIPE, stderr=subprocess.STDOUT)
+        stalled = r.returncode == -26     # SIGVTALRM
+        ctx.monitor("data-built-pattern-stall", fired=stalled)
+        ctx.case_done({"doc": case["document"]})
+        if stalled:
+            ctx.violation("data-built-pattern-stall", "no short input can stall a caller", case, observed="load needed more than 4 CPU seconds",
+                          expected="milliseconds")
+        return
     fam = {"id": 0, "target": case["target"], "prefix": case["prefix"], "pump": case.get("pump") or "", "suffix": case["suffix"]}
     if case.get("blocks"):
         fam["blocks"] = case["blocks"]
